@@ -18,11 +18,41 @@ EXTENDS LifecycleMon, TraceKit, Integers
 
 CONSTANT Want
 
-VARIABLES l, fails, m, pred, drift, ncase, cnt, prevS, seen, rs, done
-tvars == <<l, fails, m, pred, drift, ncase, cnt, prevS, seen, rs, done>>
+VARIABLES l, fails, m, pred, drift, ncase, cnt, prevS, seen, rs, fm, fc, done
+tvars == <<l, fails, m, pred, drift, ncase, cnt, prevS, seen, rs, fm, fc, done>>
 
 OpOf(r) == [side |-> r.side, op |-> r.op, phase |-> r.phase, res |-> r.res, anc |-> r.anc, tree |-> r.tree]
-KnownEv == {"Begin", "Cmd", "EndpointOp", "Edit", "Roots", "Disk", "State", "Stream", "End", "CaseAborted", "Infra"}
+KnownEv == {"Begin", "Cmd", "EndpointOp", "Edit", "Roots", "Disk", "State", "Stream", "End", "CaseAborted", "Infra",
+            "FBegin", "FCmd", "FEndpointOp", "FDisk", "FState", "FConns", "FEnd", "FInfra"}
+
+\* ------------------------------------------------------------------ forwarding sessions (FwdLifecycle.tla): the same
+\* observer, driven by the F-records of the real forwarding.Manager; conformance counters only, no verdict
+FApply(mm, r) ==
+  CASE r.ev = "FBegin" -> MInit("tws")
+    [] r.ev = "FCmd" /\ r.phase = "call" -> MCall(mm, r.id, r.kind)
+    [] r.ev = "FCmd" /\ r.phase = "return" -> MRet(mm, r.id, r.kind, r.result)
+    [] r.ev = "FEndpointOp" -> MOp(mm, OpOf(r))
+    [] OTHER -> mm
+FCnt0 == [cases |-> 0, quiets |-> 0, quietdrift |-> 0, pausechk |-> 0, pausedrift |-> 0, termchk |-> 0, termdrift |-> 0,
+          stchk |-> 0, stdrift |-> 0, connchk |-> 0, conndrift |-> 0, retdrift |-> 0]
+B(x) == IF x THEN 1 ELSE 0
+FStable(r, ev) == r.ev = ev /\ r.stable
+FBump(c, r, f0, f1) ==
+  [cases |-> c.cases + B(r.ev = "FBegin"),
+   quiets |-> c.quiets + B(f1.quiet /\ ~f0.quiet),
+   quietdrift |-> c.quietdrift + B(f1.badOp /\ ~f0.badOp),
+   pausechk |-> c.pausechk + B((FStable(r, "FState") \/ FStable(r, "FDisk")) /\ KnownPaused(f0)),
+   pausedrift |-> c.pausedrift + B(FStable(r, "FState") /\ r.listErr = "" /\ ~C29_PauseSurvivesRestart(f0, r))
+                               + B(FStable(r, "FDisk") /\ ~C29_PauseOnDisk(f0, r)),
+   termchk |-> c.termchk + B((FStable(r, "FState") \/ FStable(r, "FDisk")) /\ f0.term),
+   termdrift |-> c.termdrift + B(FStable(r, "FState") /\ r.listErr = "" /\ ~C29_TerminatedGoneList(f0, r))
+                             + B(FStable(r, "FDisk") /\ ~C29_TerminatedGoneDisk(f0, r)),
+   stchk |-> c.stchk + B(FStable(r, "FState") /\ r.listErr = "" /\ r.listed /\ Pinned(f0)),
+   stdrift |-> c.stdrift + B(FStable(r, "FState") /\ r.listErr = "" /\ r.listed /\ Pinned(f0) /\ ~StatusAgrees(f0, r)),
+   \* once quiet, every connection the endpoints handed to the controller has been closed
+   connchk |-> c.connchk + B(FStable(r, "FConns") /\ f0.quiet),
+   conndrift |-> c.conndrift + B(FStable(r, "FConns") /\ f0.quiet /\ r.handed # r.closed),
+   retdrift |-> c.retdrift + B((r.ev = "FCmd" /\ r.phase = "timeout") \/ (r.ev = "FEnd" /\ ~r.allBack))]
 
 Apply(mm, r) ==
   CASE r.ev = "Begin" -> MInit(r.in.mode)
@@ -108,7 +138,7 @@ NextSample(r, p) ==
   ELSE p
 
 TInit == l = 1 /\ fails = <<>> /\ m = MInit("tws") /\ pred = <<>> /\ drift = 0 /\ ncase = 0 /\ cnt = Cnt0
-         /\ prevS = NoSample /\ seen = {} /\ rs = Rs0 /\ done = FALSE
+         /\ prevS = NoSample /\ seen = {} /\ rs = Rs0 /\ fm = MInit("tws") /\ fc = FCnt0 /\ done = FALSE
 Step == /\ l <= NRec
         /\ LET r == Trace[l]
                m1 == Apply(m, r)
@@ -119,6 +149,8 @@ Step == /\ l <= NRec
               /\ ncase' = ncase + (IF r.ev = "Begin" THEN 1 ELSE 0)
               /\ cnt' = Bump(cnt, r, m, m1, prevS, rs)
               /\ rs' = NextRs(r, rs)
+              /\ fm' = FApply(fm, r)
+              /\ fc' = FBump(fc, r, fm, FApply(fm, r))
               /\ prevS' = NextSample(r, prevS)
               /\ seen' = IF r.ev = "Stream" /\ r.listed THEN seen \cup {r.status} ELSE seen
         /\ l' = l + 1 /\ UNCHANGED done
@@ -130,8 +162,14 @@ Finish == /\ l = NRec + 1 /\ ~done
                                         stat_stream |-> cnt.stream, stat_stream_drift |-> cnt.strdrift,
                                         stat_stream_direct |-> cnt.strdirect, stat_statuses_seen |-> Cardinality(seen),
                                         stat_recycles |-> cnt.recyc, stat_recycle_drift |-> cnt.recdrift,
-                                        stat_rescan_waits |-> cnt.rwaits, stat_rescan_wait_drift |-> cnt.rwdrift])
-          /\ done' = TRUE /\ UNCHANGED <<l, fails, m, pred, drift, ncase, cnt, prevS, seen, rs>>
+                                        stat_rescan_waits |-> cnt.rwaits, stat_rescan_wait_drift |-> cnt.rwdrift,
+                                        stat_fwd_cases |-> fc.cases, stat_fwd_quiets |-> fc.quiets, stat_fwd_quiet_drift |-> fc.quietdrift,
+                                        stat_fwd_pause_checked |-> fc.pausechk, stat_fwd_pause_drift |-> fc.pausedrift,
+                                        stat_fwd_term_checked |-> fc.termchk, stat_fwd_term_drift |-> fc.termdrift,
+                                        stat_fwd_status_checked |-> fc.stchk, stat_fwd_status_drift |-> fc.stdrift,
+                                        stat_fwd_conns_checked |-> fc.connchk, stat_fwd_conns_drift |-> fc.conndrift,
+                                        stat_fwd_return_drift |-> fc.retdrift])
+          /\ done' = TRUE /\ UNCHANGED <<l, fails, m, pred, drift, ncase, cnt, prevS, seen, rs, fm, fc>>
 TNext == Step \/ Finish
 TSpec == TInit /\ [][TNext]_tvars
 ====
